@@ -29,7 +29,7 @@ theorem goodX_planIns (h0 : Heap) (m : Bool) (l : List TxIn) : GoodX h0 (planIns
   refine ⟨by simp [Scalars.alwaysImm], ?_, ⟨l.map (fun _ => 1), ?_, ?_⟩, ?_⟩
   · intro hm k hk
     obtain ⟨i, _, rfl⟩ := List.mem_map.mp hk
-    exact Or.inl hm
+    exact hm
   · exact (mapO_const _ 1 _ (fun p hp => by obtain ⟨i, _, rfl⟩ := List.mem_map.mp hp; rfl)).trans (by simp)
   · simp [refKindsOK, refKindsK, Scalars.kind]
   · rw [goodXL_iff]
@@ -42,7 +42,7 @@ theorem goodX_planOuts (h0 : Heap) (m : Bool) (l : List TxOut) : GoodX h0 (planO
   refine ⟨by simp [Scalars.alwaysImm], ?_, ⟨l.map (fun _ => 2), ?_, ?_⟩, ?_⟩
   · intro hm k hk
     obtain ⟨i, _, rfl⟩ := List.mem_map.mp hk
-    exact Or.inl hm
+    exact hm
   · exact (mapO_const _ 2 _ (fun p hp => by obtain ⟨i, _, rfl⟩ := List.mem_map.mp hp; rfl)).trans (by simp)
   · simp [refKindsOK, refKindsK, Scalars.kind]
   · rw [goodXL_iff]
@@ -51,20 +51,20 @@ theorem goodX_planOuts (h0 : Heap) (m : Bool) (l : List TxOut) : GoodX h0 (planO
     exact goodX_planTxOut h0 m i
 
 theorem goodX_inwit (h0 : Heap) (st : WitStack) : GoodX h0 (.node false (.inwit st) []) := by
-  refine ⟨fun _ _ => rfl, fun _ k hk => by simp at hk, ⟨[], rfl, rfl⟩, trivial⟩
+  refine ⟨fun _ => rfl, fun _ k hk => by simp at hk, ⟨[], rfl, rfl⟩, trivial⟩
 
-/-- a witness object over a sequence of `CTxInWitness` objects; `lm`: the sequence is a Python list -/
-theorem goodX_witOver (h0 : Heap) (lm : Bool) (items : List Plan)
+/-- a witness object over a tuple of `CTxInWitness` objects -/
+theorem goodX_witOver (h0 : Heap) (items : List Plan)
     (hit : ∀ p ∈ items, ∃ st, p = .node false (.inwit st) []) :
-    GoodX h0 (.node false .wit [.node lm (.seq .stacks) items]) := by
-  refine ⟨fun _ _ => rfl, ?_, ⟨[10], rfl, rfl⟩, ⟨fun _ h10 => absurd rfl h10, ?_, ⟨items.map (fun _ => 3), ?_, ?_⟩, ?_⟩,
+    GoodX h0 (.node false .wit [.node false (.seq .stacks) items]) := by
+  refine ⟨fun _ => rfl, ?_, ⟨[10], rfl, rfl⟩, ⟨fun _ => rfl, ?_, ⟨items.map (fun _ => 3), ?_, ?_⟩, ?_⟩,
     trivial⟩
   · intro _ k hk
     simp only [List.mem_singleton] at hk
-    subst hk; exact Or.inr rfl
+    subst hk; exact rfl
   · intro _ k hk
     obtain ⟨st, rfl⟩ := hit k hk
-    exact Or.inl rfl
+    exact rfl
   · exact mapO_const _ 3 _ (fun p hp => by obtain ⟨st, rfl⟩ := hit p hp; rfl)
   · show refKindsK 10 _
     simp only [refKindsK]
@@ -77,12 +77,12 @@ theorem goodX_witOver (h0 : Heap) (lm : Bool) (items : List Plan)
     exact goodX_inwit h0 st
 
 theorem goodX_planWit (h0 : Heap) (w : List WitStack) : GoodX h0 (planWit w) :=
-  goodX_witOver h0 false _ (fun p hp => by obtain ⟨st, _, rfl⟩ := List.mem_map.mp hp; exact ⟨st, rfl⟩)
+  goodX_witOver h0 _ (fun p hp => by obtain ⟨st, _, rfl⟩ := List.mem_map.mp hp; exact ⟨st, rfl⟩)
 
-/-- `CTxWitness([CTxInWitness() …])`: an immutable witness over a Python list -/
+/-- `CTxWitness([CTxInWitness() …])`: the constructor freezes the list (`tuple(vtxinwit)`) -/
 theorem goodX_defaultWit (h0 : Heap) (n : Nat) :
-    GoodX h0 (.node false .wit [.node true (.seq .stacks) (List.replicate n (.node false (.inwit []) []))]) :=
-  goodX_witOver h0 true _ (fun p hp => ⟨[], List.eq_of_mem_replicate hp⟩)
+    GoodX h0 (.node false .wit [.node false (.seq .stacks) (List.replicate n (.node false (.inwit []) []))]) :=
+  goodX_witOver h0 _ (fun p hp => ⟨[], List.eq_of_mem_replicate hp⟩)
 
 theorem goodX_planTx {h0 : Heap} (m : Bool) (v : Tx) {wp : Plan} (hw : GoodX h0 wp) (hwf : rootFrozenP h0 wp)
     (hwk : rootKindP h0 wp = some 4) : GoodX h0 (planTx m v wp) := by
@@ -92,8 +92,8 @@ theorem goodX_planTx {h0 : Heap} (m : Bool) (v : Tx) {wp : Plan} (hw : GoodX h0 
   · intro hm k hk
     simp only [List.mem_cons, List.mem_nil_iff, or_false] at hk
     rcases hk with rfl | rfl | rfl
-    · exact Or.inl hm
-    · exact Or.inl hm
+    · exact hm
+    · exact hm
     · exact hwf
   · have e1 : rootKindP h0 (planIns m v.vin) = some 8 := rfl
     have e2 : rootKindP h0 (planOuts m v.vout) = some 9 := rfl
@@ -115,7 +115,7 @@ theorem planClone_goodX {h : Heap} (hinv : InvX h) (tm : Bool) : ∀ {f : Nat} {
       · rename_i hcond
         cases hp
         simp only [Bool.and_eq_true, Bool.not_eq_true', Bool.or_eq_true] at hcond
-        exact ⟨(List.getElem?_eq_some_iff.mp ho).1, rfl, fun _ => ⟨o, ho, Or.inl hcond.1.2⟩⟩
+        exact ⟨(List.getElem?_eq_some_iff.mp ho).1, rfl, fun _ => ⟨o, ho, hcond.1.2⟩⟩
       · rename_i hcond
         cases hm : mapO (planClone tm f h) o.refs with
         | none => simp [hm] at hp
@@ -126,10 +126,10 @@ theorem planClone_goodX {h : Heap} (hinv : InvX h) (tm : Bool) : ∀ {f : Nat} {
               GoodX h pl ∧ rootKindP h pl = kindAt h c ∧ (tm = false → rootFrozenP h pl) :=
             fun c pl hc => planClone_goodX hinv tm hc
           obtain ⟨ks, hks, hok⟩ := hinv.typed a o ho
-          refine ⟨?_, by rw [hka]; rfl, fun htm => Or.inl htm⟩
+          refine ⟨?_, by rw [hka]; rfl, fun htm => htm⟩
           simp only [GoodX]
           refine ⟨?_, ?_, ⟨ks, ?_, hok⟩, ?_⟩
-          · intro hai h10
+          · intro hai
             cases htm : tm with
             | false => rfl
             | true =>
@@ -139,7 +139,7 @@ theorem planClone_goodX {h : Heap} (hinv : InvX h) (tm : Bool) : ∀ {f : Nat} {
                 cases hr : o.sc.rebuilt with
                 | false => rfl
                 | true => rw [rebuilt_not_alwaysImm hr] at hai; cases hai
-              simp [hnr, hinv.kindOK a o ho hai h10, hai]
+              simp [hnr, hinv.kindOK a o ho hai, hai]
           · intro htm k hk
             obtain ⟨c, _, hc⟩ := mapO_mem hm hk
             exact (hkid c k hc).2.2 htm
